@@ -73,6 +73,8 @@ type Engine struct {
 	// second pass of a property check: a clause of ANOTHER property that failed must not mask this property's
 	// obligations downstream (everything after a false assumption would hold vacuously).
 	noAssume map[string]bool
+	baseLocals map[string][]localEntry // recorded with the baseline: locals of every function under contract (rename tolerance)
+	curLocals  map[string][]localEntry // of this run
 	litFuncs map[*ast.FuncDecl]*types.Func   // function literals verified as functions of their own (F$litN)
 	litNodes map[*ast.FuncDecl]*ast.FuncLit
 	funcFacts  map[string][]string // per function: facts about the entry heap, added to every obligation of that function
